@@ -19,7 +19,7 @@ type Op struct {
 
 var OpKinds = []string{"remove-member", "swap-members", "rename-field", "add-field", "remove-message", "add-message",
 	"toggle-required", "change-field-type", "change-type-mapping", "add-enum-values", "add-group", "add-component",
-	"remove-component", "duplicate-field-number", "duplicate-msgtype", "reorder-messages", "add-nested-groups", "move-framing-field", "same-group-in-components", "change-version", "add-time-field", "type-named-like-enum-field", "enum-of-unmapped-type", "optional-session-field", "odd-required-attribute"}
+	"remove-component", "duplicate-field-number", "duplicate-msgtype", "reorder-messages", "add-nested-groups", "move-framing-field", "same-group-in-components", "change-version", "add-time-field", "type-named-like-enum-field", "enum-of-unmapped-type", "optional-session-field", "odd-required-attribute", "framing-named-member-in-group"}
 
 // names the generator or the library's interfaces rely on
 var protectedFields = map[string]bool{
@@ -215,6 +215,32 @@ func Apply(base *schema.Schema, baseTM *schema.TypeMap, ops []Op) (s *schema.Sch
 			m := (*h.members)[op.B%len(*h.members)]
 			m.Required = !m.Required
 			note("set required=%v on %s %s of %s", m.Required, m.Kind, m.Name, h.label)
+		case "framing-named-member-in-group":
+			// a repeating group that lists a field named like one of the framing fields (a dictionary may well
+			// carry MsgType inside a group, e.g. RefMsgType's neighbours): in a group it is a member like any other
+			var groups []holder
+			for _, h := range hs {
+				if h.isGroup && len(*h.members) > 0 {
+					groups = append(groups, h)
+				}
+			}
+			name := []string{"MsgType", "BodyLength", "CheckSum", "BeginString"}[op.B%4]
+			if len(groups) == 0 || s.Field(name) == nil {
+				skip(op, "no group or no such field")
+				continue
+			}
+			h := groups[op.A%len(groups)]
+			dup := false
+			for _, m := range *h.members {
+				dup = dup || m.Name == name
+			}
+			if dup {
+				skip(op, "already there")
+				continue
+			}
+			pos := 1 + op.C%len(*h.members)
+			*h.members = append((*h.members)[:pos:pos], append([]*schema.Member{{Kind: "field", Name: name, Required: false}}, (*h.members)[pos:]...)...)
+			note("add field %s to group %s at %d", name, h.label, pos)
 		case "odd-required-attribute":
 			// a member whose required attribute is missing or spelled some other way than Y / N: only Y means required
 			h := hs[op.A%len(hs)]
